@@ -4,6 +4,7 @@ package main
 
 import (
 	"fmt"
+	"regexp"
 	"go/ast"
 	"go/types"
 	"sort"
@@ -21,8 +22,24 @@ type Leaf struct {
 	Sort *Sort
 }
 
+var reByte = regexp.MustCompile(`\bbyte\b`)
+var reRune = regexp.MustCompile(`\brune\b`)
+var typeKeyCache = map[types.Type]string{}
+
+// typeKey is the canonical name of a type (byte/uint8 and rune/int32 are the same type).
 func typeKey(t types.Type) string {
-	return types.TypeString(t, func(p *types.Package) string { return p.Path() })
+	if k, ok := typeKeyCache[t]; ok {
+		return k
+	}
+	s := types.TypeString(t, func(p *types.Package) string { return p.Path() })
+	if strings.Contains(s, "byte") {
+		s = reByte.ReplaceAllString(s, "uint8")
+	}
+	if strings.Contains(s, "rune") {
+		s = reRune.ReplaceAllString(s, "int32")
+	}
+	typeKeyCache[t] = s
+	return s
 }
 
 var leafCache = map[string][]Leaf{}
